@@ -463,6 +463,95 @@ where
     Queries::new::<H, E>(proof, values)
 }
 
+/// Queries built with a hasher over the elements' own base field, sent through bytes and DECODED
+/// (`Queries::parse`): the node vectors, the hashed rows and the table of values must come back.
+fn parse_q<H, E>(s: &QSpec) -> CheckResult
+where
+    E: FieldElement,
+    E::BaseField: FA,
+    H: ElementHasher<BaseField = E::BaseField>,
+{
+    use winter_utils::Serializable;
+    let total: usize = s.node_lens.iter().map(|l| *l as usize).sum();
+    let pool = digests::<H>(s.seed, total.max(1));
+    let mut at = 0;
+    let nodes: Vec<Vec<H::Digest>> = s
+        .node_lens
+        .iter()
+        .map(|l| {
+            let v = pool[at..at + *l as usize].to_vec();
+            at += *l as usize;
+            v
+        })
+        .collect();
+    let all: Vec<E> = make_vec::<E>(&s.elems, s.n_queries as usize * s.per_query as usize);
+    let values: Vec<Vec<E>> = all.chunks(s.per_query as usize).map(|c| c.to_vec()).collect();
+    let q = Queries::new::<H, E>(BatchMerkleProof::<H> { leaves: vec![], nodes: nodes.clone(), depth: s.depth }, values.clone());
+    let back = Queries::read_from_bytes(&q.to_bytes()).map_err(|e| Fail::new("Queries/decode-refused", format!("{e:?}")))?;
+    let depth = 1 + s.depth % 20;
+    let name = std::any::type_name::<H>().rsplit("::").next().unwrap_or("").to_string();
+    let (proof, table) = vf_core::catch(|| back.parse::<H, E>(1usize << depth, s.n_queries as usize, s.per_query as usize))
+        .map_err(|p| Fail::new(format!("Queries/parse/{}", p.key()), p.msg.clone()))?
+        .map_err(|e| {
+            Fail::new(
+                "Queries/parse-refused",
+                format!("{name}: a query set built by Queries::new ({} queries x {} values, node vectors {:?}) cannot be decoded: {e:?}", s.n_queries, s.per_query, s.node_lens),
+            )
+        })?;
+    vf_core::ensure!(proof.nodes == nodes, "Queries/parse/nodes", "{name}: parsed authentication nodes differ from the ones handed to Queries::new");
+    vf_core::ensure!(proof.depth == depth, "Queries/parse/depth", "{name}: parsed depth {} for a domain of 2^{depth}", proof.depth);
+    let leaves: Vec<H::Digest> = values.iter().map(|r| H::hash_elements(r)).collect();
+    vf_core::ensure!(proof.leaves == leaves, "Queries/parse/leaves", "{name}: parsed leaves are not the hashes of the query rows");
+    vf_core::ensure!(
+        table.num_rows() == values.len() && (0..values.len()).all(|i| table.get_row(i) == &values[i][..]),
+        "Queries/parse/values",
+        "{name}: parsed table of values differs from the values handed to Queries::new"
+    );
+    Ok(())
+}
+
+/// the Rescue hashers exist over one base field each
+pub trait RescueOver: FA {
+    fn parse_rescue<E: FieldElement<BaseField = Self>>(which: u8, s: &QSpec) -> Option<CheckResult>;
+}
+impl RescueOver for B62 {
+    fn parse_rescue<E: FieldElement<BaseField = Self>>(which: u8, s: &QSpec) -> Option<CheckResult> {
+        (which == 5).then(|| parse_q::<winter_crypto::hashers::Rp62_248, E>(s))
+    }
+}
+impl RescueOver for B64 {
+    fn parse_rescue<E: FieldElement<BaseField = Self>>(which: u8, s: &QSpec) -> Option<CheckResult> {
+        match which {
+            3 => Some(parse_q::<winter_crypto::hashers::Rp64_256, E>(s)),
+            4 => Some(parse_q::<winter_crypto::hashers::RpJive64_256, E>(s)),
+            _ => None,
+        }
+    }
+}
+impl RescueOver for B128 {
+    fn parse_rescue<E: FieldElement<BaseField = Self>>(_which: u8, _s: &QSpec) -> Option<CheckResult> {
+        None
+    }
+}
+
+fn parse_dispatch<E>(s: &QSpec, obs: &mut Obs) -> CheckResult
+where
+    E: FieldElement,
+    E::BaseField: RescueOver,
+{
+    use winter_crypto::hashers::{Blake3_192, Blake3_256, Sha3_256};
+    if let Some(r) = <E::BaseField as RescueOver>::parse_rescue::<E>(s.hasher, s) {
+        obs.label("parsed-with=rescue-hasher");
+        return r;
+    }
+    obs.label("parsed-with=byte-hasher");
+    match s.hasher % 3 {
+        0 => parse_q::<Blake3_256<E::BaseField>, E>(s),
+        1 => parse_q::<Blake3_192<E::BaseField>, E>(s),
+        _ => parse_q::<Sha3_256<E::BaseField>, E>(s),
+    }
+}
+
 pub fn build_queries(s: &QSpec) -> Queries {
     with_hasher!(s.hasher, H => with_field!(s.fk, E => build_queries_he::<H, E>(s)))
 }
@@ -480,10 +569,10 @@ impl Group for QueriesG {
         tier.pick(30_000, 500_000)
     }
     fn rule() -> String {
-        "Queries::new::<H,E>(BatchMerkleProof{nodes}, values): 1..255 queries x 1..255 evaluations (1..8 and 254/255 weighted) of any of the 8 element types, node vectors 0..255 of 0..255 digests of any of the six hashers (empty, 255 vectors, vectors of 0 and 255 digests weighted); non-trivial = a count at 0/1/254/255".into()
+        "Queries::new::<H,E>(BatchMerkleProof{nodes}, values): 1..255 queries x 1..255 evaluations (1..8 and 254/255 weighted) of any of the 8 element types, node vectors 0..255 of 0..255 digests of any of the six hashers (empty, 255 vectors, vectors of 0 and 255 digests weighted); the set is also rebuilt with a hasher over the elements' own base field (all six hashers), sent through bytes and decoded with Queries::parse: nodes, hashed rows and values must come back; non-trivial = a count at 0/1/254/255".into()
     }
     fn required_labels() -> Vec<String> {
-        vec!["queries=255".into(), "per-query=255".into(), "node-vectors=255".into(), "node-vectors=0".into()]
+        vec!["queries=255".into(), "per-query=255".into(), "node-vectors=255".into(), "node-vectors=0".into(), "parsed-with=rescue-hasher".into(), "parsed-with=byte-hasher".into()]
     }
     fn strategy(_t: Tier) -> BoxedStrategy<QSpec> {
         q_strategy()
@@ -502,7 +591,9 @@ impl Group for QueriesG {
             obs.label("node-vectors=0");
         }
         obs.nontrivial_if(q_boundary(s) || srcs_boundary(s.fk.base, &s.elems));
-        c.rt("Queries", &build_queries(s), obs)
+        c.rt("Queries", &build_queries(s), obs)?;
+        // decoding proper: the same specification with a hasher over the elements' own field, parsed back
+        with_field!(s.fk, E => parse_dispatch::<E>(s, obs))
     }
 }
 
@@ -665,7 +756,7 @@ pub enum FriSpec {
 }
 
 /// the schedule FriProver follows; None if some layer would have fewer than 2 leaves or the
-/// remainder fewer than 4 evaluations / less than one coefficient (the prover's own asserts)
+/// remainder fewer than 2 evaluations / less than one coefficient (the prover's own asserts)
 fn fri_layers(log_n: u8, log_blowup: u8, log_fold: u8, log_rem: u8) -> Option<usize> {
     let mut dom = 1usize << log_n;
     let max_rem = (1usize << log_rem) << log_blowup;
@@ -677,7 +768,7 @@ fn fri_layers(log_n: u8, log_blowup: u8, log_fold: u8, log_rem: u8) -> Option<us
         dom >>= log_fold;
         layers += 1;
     }
-    if dom < 4 || dom >> log_blowup == 0 {
+    if dom < 2 || dom >> log_blowup == 0 {
         return None;
     }
     Some(layers)
@@ -792,8 +883,48 @@ impl Group for FriG {
             Ok(r) => r?,
             Err(p) => return Err(Fail::new("harness/fri-build", format!("building the FriProof panicked: {} at {}:{}", p.msg, p.file, p.line))),
         };
-        c.rt("FriProof", &x, obs)
+        c.rt("FriProof", &x, obs)?;
+        // decoding proper: what an honest prover produced must parse into its layers and its remainder
+        if let FriSpec::Prover { fk, h192, log_n, log_fold, .. } = s {
+            use winter_crypto::hashers::{Blake3_192, Blake3_256};
+            use winter_utils::Serializable;
+            let back = FriProof::read_from_bytes(&x.to_bytes()).map_err(|e| Fail::new("FriProof/decode-refused", format!("{e:?}")))?;
+            let (n, folding) = (1usize << *log_n, 1usize << *log_fold);
+            let layers = x.num_layers();
+            let r: Result<usize, String> = with_field!(fk, E => {
+                if *h192 {
+                    fri_parse::<E, Blake3_192<<E as FieldElement>::BaseField>>(back, n, folding)
+                } else {
+                    fri_parse::<E, Blake3_256<<E as FieldElement>::BaseField>>(back, n, folding)
+                }
+            });
+            match r {
+                Ok(l) => vf_core::ensure!(l == layers, "FriProof/parse/layers", "parse_layers returned {l} layers for a proof of {layers}"),
+                Err(e) => {
+                    return Err(Fail::new(
+                        "FriProof/parse-refused",
+                        format!("a proof made by FriProver (domain {n}, folding {folding}, {layers} layers) cannot be decoded: {e}"),
+                    ))
+                },
+            }
+        }
+        Ok(())
     }
+}
+
+fn fri_parse<E, H>(proof: FriProof, n: usize, folding: usize) -> Result<usize, String>
+where
+    E: FieldElement,
+    H: ElementHasher<BaseField = E::BaseField>,
+{
+    let rem = proof.clone();
+    let r = vf_core::catch(|| proof.parse_layers::<H, E>(n, folding)).map_err(|p| format!("parse_layers panicked: {}", p.msg))?;
+    let (values, proofs) = r.map_err(|e| format!("parse_layers: {e:?}"))?;
+    if values.len() != proofs.len() {
+        return Err("parse_layers: numbers of value sets and openings differ".into());
+    }
+    vf_core::catch(|| rem.parse_remainder::<E>()).map_err(|p| format!("parse_remainder panicked: {}", p.msg))?.map_err(|e| format!("parse_remainder: {e:?}"))?;
+    Ok(values.len())
 }
 
 fn fri_labels(s: &FriSpec, obs: &mut Obs) {
